@@ -326,6 +326,7 @@ pub fn explore<S: Scenario>(scn: &S, cfg: &ExploreCfg) -> Report {
                             }
                             if t0.elapsed().as_secs_f64() > cfg.wall_cap_s
                                 || total_states.load(Ordering::Relaxed) > cfg.max_states
+                                || (i % 256 == 0 && rss_gb() > max_rss_gb())
                             {
                                 capped.store(true, Ordering::SeqCst);
                                 break;
@@ -399,11 +400,12 @@ pub fn explore<S: Scenario>(scn: &S, cfg: &ExploreCfg) -> Report {
             if capped.load(Ordering::SeqCst) {
                 rep.exhaustive = false;
                 rep.cap_hit = Some(format!(
-                    "cap hit at root {} depth {} (wall {:.0}s / states {})",
+                    "cap hit at root {} depth {} (wall {:.0}s / states {} / rss {:.1} GiB)",
                     root,
                     depth + 1,
                     t0.elapsed().as_secs_f64(),
-                    total_states.load(Ordering::Relaxed)
+                    total_states.load(Ordering::Relaxed),
+                    rss_gb()
                 ));
                 rep.depth_completed = rep.depth_completed.min(depth);
                 stop.store(true, Ordering::SeqCst);
@@ -524,6 +526,21 @@ fn handle_violation<S: Scenario>(
 
 /// Replay a recorded trace on a fresh world, no explorer, no snapshots. Prints each step.
 /// Returns true iff the recorded oracle fails again.
+/// resident set size of this process in GiB (0 if unknown)
+pub fn rss_gb() -> f64 {
+    std::fs::read_to_string("/proc/self/statm")
+        .ok()
+        .and_then(|s| s.split_whitespace().nth(1).and_then(|x| x.parse::<f64>().ok()))
+        .map(|pages| pages * 4096.0 / (1u64 << 30) as f64)
+        .unwrap_or(0.0)
+}
+
+/// memory cap (the frontier holds full state snapshots): reaching it ends the exploration as a capped,
+/// non-exhaustive run instead of letting the kernel kill the process
+pub fn max_rss_gb() -> f64 {
+    std::env::var("WWMC_MAX_RSS_GB").ok().and_then(|s| s.parse().ok()).unwrap_or(36.0)
+}
+
 pub fn replay_trace<S: Scenario>(scn: &S, doc: &Value) -> bool {
     // roots are identified by label (a check may explore several root lists); the index is the fallback
     let labels = scn.root_labels();
